@@ -106,7 +106,7 @@ func TestC18Builtins(t *testing.T) {
 		if rerr != nil || root == nil {
 			rt.Fatalf("VIOLATION C18/direct [root-scope]: provider.Get(Scope) = %v, %v", rootAny, rerr)
 		}
-		x.genHistory(rt, histOpts{MaxSteps: 20, MaxDepth: 4, CloseScopes: false, NoProvClose: true, CtxKinds: []int{0, 0, 1, 2, 3, 4, 5}})
+		x.genHistory(rt, histOpts{MaxSteps: 20, MaxDepth: 4, CloseScopes: false, NoProvClose: true, CtxKinds: []int{0, 0, 1, 2, 3, 4, 5, 7, 7}})
 		var f *Failure
 		nt := x.Stats.MaxDepth >= 2
 		for i := range cfg.Regs {
